@@ -1167,6 +1167,7 @@ func init() {
 			{Name: "MERGE-KEEPS", What: "AddReference's merge of a compatible duplicate overwrites a field only with the duplicate's non-empty value; the @CO parser keeps the whole remainder of the line", Floor: 5, Run: ruleMergeKeeps},
 			{Name: "SCAN-LIMIT", What: "no parser of package sam reads lines through a bufio.Scanner with the default 64 KiB token limit: a header line (@PG CL, @CO) may be longer (added after eleventh-round seed C07-l; none today)", Floor: 0, Run: ruleScanLimit([]string{"sam"}),
 				Canary: func(cc *Ctx, r *Rep) { ruleScanLimit([]string{"scanc"})(cc, r, "") }, WantFail: []string{"scanc.Lines#scanner~1"}, WantPassMin: 1},
+			{Name: "MEMO-COHERENT", What: "String of Reference, ReadGroup and Program writes nothing into its receiver – or every writer of a field it reads renews what it kept: the text a header serialises to is that of its current values, also after add, merge and rename (shared with C05; the seed C05-p history – marshal, AddReference merging into an existing reference, marshal again – is a C07 history too)", Floor: 3, Run: ruleMemoCoherent},
 			{Name: "STORE-AS-READ", What: "the @RG, @PG and @SQ line parsers store a field's text whatever its value (or refuse the line): no value the writer writes is dropped by the reader (added after fifteenth-round seed C07-p: FO:* taken for no flow order)", Floor: 3, Run: ruleStoreAsRead},
 			{Name: "DATE-ZONE", What: "every layout a read group's date is printed with carries a zone and is one the parser accepts as non-local (added after a blind second seed round)", Floor: 1, Run: ruleDateZone},
 			{Name: "WIRE-BAMHDR", What: "binary header: EncodeBinary's token sequence = DecodeBinary's", Floor: 6,
